@@ -71,6 +71,11 @@ MUTANTS = [
     ("C01", "parity_dropped", G + "geometric/geometric_image.py", "            self.parity + filter_image.parity,\n", "            self.parity,\n", "convolve_with forgets the filter parity"),
     ("C01", "torus_amount_one_sided", G + "geometric/functional_geometric_image.py", "padding_f = lambda M, dilation, torus: ((((M - 1) // 2) * dilation),) * 2 if torus else (0, 0)", "padding_f = lambda M, dilation, torus: ((((M - 1) // 2) * dilation), ((M - 1) // 2) * dilation + (dilation - 1)) if torus else (0, 0)", "wrap halo larger on the high side for dilation > 1"),
     ("C01", "expand_order_swapped", G + "geometric/functional_geometric_image.py", "        image_b_expanded = image_b_expanded.transpose(idxs)\n", "        image_b_expanded = image_b_expanded.transpose(idxs) if img_b_k == 0 or img_a_k != img_b_k else jnp.moveaxis(image_b_expanded.transpose(idxs), -1, -(1 + img_b_k))\n", "filter tensor indices interleaved when k == k' > 0"),
+    ("C05", "lc_parity", G + "geometric/geometric_image.py", "multicontract(outer, zipped_indices), self.parity + 1, self.D, self.is_torus", "multicontract(outer, zipped_indices), self.parity + (1 if self.D == 3 else 0), self.D, self.is_torus", "Levi-Civita contraction keeps the parity in 2D"),
+    ("C05", "product_parity", G + "geometric/geometric_image.py", "                mul(self.D, self.data, other.data),\n                self.parity + other.parity,", "                mul(self.D, self.data, other.data),\n                max(self.parity, other.parity),", "product parity = max instead of sum (pseudo x pseudo stays pseudo)"),
+    ("C05", "norm_keeps_parity", G + "geometric/geometric_image.py", "return self.__class__(norm(self.D, self.data), 0, self.D, self.is_torus)", "return self.__class__(norm(self.D, self.data), self.parity, self.D, self.is_torus)", "norm of a pseudo-tensor declared pseudo-scalar"),
+    ("C05", "add_no_parity_assert", G + "geometric/geometric_image.py", "        assert self.parity == other.parity\n        assert self.is_torus == other.is_torus\n        assert self.data.shape == other.data.shape\n        return self.__class__(self.data + other.data", "        assert self.is_torus == other.is_torus\n        assert self.data.shape == other.data.shape\n        return self.__class__(self.data + other.data", "__add__ no longer rejects operands of different parity"),
+    ("C05", "contract_letters", G + "geometric/functional_geometric_image.py", "        einstr[idx1 + idx_shift] = einstr[idx2 + idx_shift] = LETTERS[-(i + 1)]", "        einstr[idx1 + idx_shift] = einstr[idx2 + idx_shift] = LETTERS[-(min(i, 0) + 1)]", "all contraction pairs share one letter"),
     ("C19", "le", G + "ml/stopping_conditions.py", "if train_loss < (self.best_train_loss - self.min_delta):", "if train_loss <= (self.best_train_loss - self.min_delta):", "non-strict improvement test"),
     ("C19", "ge_patience", G + "ml/stopping_conditions.py", "        return self.epochs_since_best > self.patience\n\n\nclass ValLoss", "        return self.epochs_since_best >= self.patience\n\n\nclass ValLoss", "stops one epoch early"),
     ("C19", "no_reset", G + "ml/stopping_conditions.py", "            self.best_model = model\n            self.epochs_since_best = 0\n\n            if self.verbose >= 1:\n                self.log_status(current_epoch, train_loss, val_loss, epoch_time)\n        else:\n            self.epochs_since_best += 1\n\n        return self.epochs_since_best > self.patience\n\n\nclass ValLoss", "            self.best_model = model\n\n            if self.verbose >= 1:\n                self.log_status(current_epoch, train_loss, val_loss, epoch_time)\n        else:\n            self.epochs_since_best += 1\n\n        return self.epochs_since_best > self.patience\n\n\nclass ValLoss", "counter not reset on improvement"),
